@@ -97,12 +97,12 @@ template <class F> void ipfuture_product(Ctx &ctx, int L, F visit) {
 }
 
 template <class F> void octet_product(Ctx &ctx, F visit) {
-    static const char *oc[17] = { "0", "9", "10", "99", "100", "199", "200", "249", "250", "255", "256", "260", "300", "00", "01", "1a", "" };
+    static const char *oc[22] = { "0", "9", "10", "99", "100", "199", "200", "249", "250", "255", "256", "260", "300", "00", "01", "1a", "", "19", "20", "25", "26", "29" };
     uint64_t idx = 0;
-    for (int a = 0; a < 17; a++) for (int b = 0; b < 17; b++) {
+    for (int a = 0; a < 22; a++) for (int b = 0; b < 22; b++) {
         if (!ctx.mine(idx++)) continue;
         if (ctx.expired()) return;
-        for (int c = 0; c < 17; c++) for (int d = 0; d < 17; d++) {
+        for (int c = 0; c < 22; c++) for (int d = 0; d < 22; d++) {
             Str h = Str(oc[a]) + "." + oc[b] + "." + oc[c] + "." + oc[d];
             visit("//" + h); visit("//u@" + h + ":80"); visit("//" + h + "@x"); visit("//[::" + h + "]"); visit("//[1:2:3:4:5:6:" + h + "]");
         }
